@@ -322,8 +322,10 @@ where
                 let mut uuid = None;
                 let mut data = None;
 
-                while let Some(key) = map.next_key()? {
-                    match key {
+                // Owned keys: readers that cannot lend out `&str` (`from_reader`, `from_value`) hand
+                // the field names over as owned strings.
+                while let Some(key) = map.next_key::<String>()? {
+                    match key.as_str() {
                         "uuid" => {
                             if uuid.is_some() {
                                 return Err(de::Error::duplicate_field("uuid"));
